@@ -675,19 +675,25 @@ func (r *HeaderFooterResult) FilterFragments(pageIndex int, fragments []text.Tex
 	// Detect coordinate system
 	invertedCoords := maxY > pageHeight
 
-	// Scale regions if content extends beyond page
+	// Measure the margin bands the same way detection does: from the page edges
+	// when the content lies within the page, from the content bounds (with the
+	// band heights scaled) only when the coordinates exceed the page.
+	refMinY, refMaxY := 0.0, pageHeight
 	headerRegion := r.Config.HeaderRegionHeight
 	footerRegion := r.Config.FooterRegionHeight
-	if contentHeight > pageHeight {
-		scale := contentHeight / pageHeight
-		headerRegion *= scale
-		footerRegion *= scale
+	if invertedCoords || pageHeight <= 0 {
+		refMinY, refMaxY = minY, maxY
+		if pageHeight > 0 {
+			scale := contentHeight / pageHeight
+			headerRegion *= scale
+			footerRegion *= scale
+		}
 	}
 
 	var filtered []text.TextFragment
 
 	for _, frag := range fragments {
-		if r.isInHeaderFooter(pageIndex, frag, minY, maxY, headerRegion, footerRegion, invertedCoords, charLevel) {
+		if r.isInHeaderFooter(pageIndex, frag, refMinY, refMaxY, headerRegion, footerRegion, invertedCoords, charLevel) {
 			continue
 		}
 		filtered = append(filtered, frag)
